@@ -58,6 +58,15 @@ OBS_FIELDS = [
 ]
 
 
+def bv(name):
+    """Bound variable of a spec quantifier.  Deterministic names make two instances of
+    the same predicate over the same heap *syntactically identical*, so an invariant that
+    a frame leaves untouched is discharged by the solver's preprocessor instead of by
+    quantifier instantiation.  Names are only ever used bound (program values get
+    `name!N` constants), and nested spec quantifiers use different names."""
+    return z3.Int("?" + name)
+
+
 def imp(a, b):
     return z3.Implies(a, b)
 
@@ -122,7 +131,7 @@ def valid_instance(h, I, bound=None):
     input shape (>=1 job, >=1 operation per job, >=1 machine per operation, ids >= 0,
     durations >= 0)."""
     it = Inst(h, I)
-    j, p, q = fresh("j"), fresh("p"), fresh("q")
+    j, p, q = bv("j"), bv("p"), bv("q")
     o = it.op(j, p)
     A = h.alloc if bound is None else bound
     return [
@@ -215,12 +224,12 @@ def reach(h, d):
     R1-R8).  Returned as named conjuncts."""
     D = Disp(h, d)
     it = D.it
-    m, i, j, p, s = fresh("m"), fresh("i"), fresh("j"), fresh("p"), fresh("s")
+    m, i, j, p, s = bv("m"), bv("i"), bv("j"), bv("p"), bv("s")
     x = D.x(m, i)
     o = D.opx(x)
     A = h.alloc
     born = h.get("$born", d)
-    m2 = fresh("m2")
+    m2 = bv("m2")
     own = [D.S, D.mnat, D.k, D.jnat, D.subs]
     in_mi = z3.And(rng(m, 0, D.M), rng(i, 0, D.nS(m)))
     in_jp = z3.And(rng(j, 0, it.J), rng(p, 0, D.kj(j)))
@@ -300,8 +309,8 @@ def derived(h, d):
     ghost maps: tracking vectors equal the values implied by the schedule."""
     D = Disp(h, d)
     it = D.it
-    m, i, j = fresh("m"), fresh("i"), fresh("j")
-    m2, i2 = fresh("m2"), fresh("i2")
+    m, i, j = bv("m"), bv("i"), bv("j")
+    m2, i2 = bv("m2"), bv("i2")
     x2 = D.x(m2, i2)
     in_mi2 = z3.And(rng(m2, 0, D.M), rng(i2, 0, D.nS(m2)))
     return [
@@ -333,7 +342,7 @@ def upd_tracking(h, d, x):
 
 
 def contains(h, lst, v):
-    q = fresh("cq")
+    q = bv("cq")
     return z3.Exists([q], z3.And(rng(q, 0, h.len(lst)), h.at(lst, q) == v))
 
 
